@@ -66,34 +66,48 @@ package db
 //@   serves C10, C11
 //@   requires baseOk(bd)
 //@   premise !sameBacking(key, bd.baseDb.sid)
-//@   modifies bd.baseDb.sid[*]
+//@   modifies bd.baseDb.sid[len(bd.baseDb.sid):cap(bd.baseDb.sid)]
 //@   ensures @sessioned sessioned(pfx) ==> str(result) == old(str(bd.baseDb.sid)) + old(str(key))
 //@   ensures @sid str(bd.baseDb.sid) == old(str(bd.baseDb.sid)) && str(key) == old(str(key))
 //@   ensures @plain !sessioned(pfx) ==> result == key
-//@   ensures @backing result == nil || sameBacking(result, key) || sameBacking(result, bd.baseDb.sid) || fresh(result)
+//@   ensures @backing !sessioned(pfx) || result == nil || extends(result, bd.baseDb.sid) || fresh(result)
 
 //@ func ToDbKey
 //@   serves C10, C11
-//@   modifies b[*]
+//@   modifies b[len(b):cap(b)]
 //@   ensures @plain !(l != nil && l.Code != "" && translatable(typ)) ==> str(result) == chr(typ) + str(b)
 //@   ensures @lang l != nil && l.Code != "" && translatable(typ) ==> str(result) == chr(typ) + old(str(b)) + "_" + l.Code
 //@   ensures @own fresh(result)
 //@   ensures @kept str(b) == old(str(b))
+// the same, split into type byte and text (the filesystem backend takes keys apart again)
+//@   ensures @tail len(result) >= 1 && result[0] == typ
+//@     && str(result[1:]) == old(str(b)) + ite(l != nil && l.Code != "" && translatable(typ), "_" + l.Code, "")
 
-// the session part of a storage key for the current data type
-//@ ghost skey(bd, key) = ite(sessioned(bd.baseDb.pfx), str(bd.baseDb.sid), "") + str(key)
 // the language that applies to a lookup: the one set on the store, else the context's (C18)
 //@ pred ctxHasLang(ctx) = typeis[lang.Language](ctxval(ctx, "Language"))
 //@ ghost ctxLangCode(ctx) = as[lang.Language](ctxval(ctx, "Language")).Code
+// the session part of a storage key for the current data type
+//@ ghost skeyT(bd, t) = ite(sessioned(bd.baseDb.pfx), str(bd.baseDb.sid), "") + t
+//@ ghost skey(bd, key) = skeyT(bd, str(key))
+// the language suffix of a translated lookup: the store's language, else the context's (C18)
+//@ pred hasTrans(bd, ctx) = translatable(bd.baseDb.pfx) && (bd.baseDb.lang != nil || ctxHasLang(ctx))
+//@ ghost transSuffix(bd, ctx) = ite(bd.baseDb.lang != nil, langSuffix(bd.baseDb.lang), ite(ctxLangCode(ctx) != "", "_" + ctxLangCode(ctx), ""))
 
 //@ func (*DbBase).ToKey
 //@   serves C10, C11, C18
 //@   requires baseOk(bd) && ctx != nil
 //@   premise !sameBacking(key, bd.baseDb.sid)
-//@   modifies bd.baseDb.sid[*], key[*]
+//@   modifies bd.baseDb.sid[len(bd.baseDb.sid):cap(bd.baseDb.sid)], key[len(key):cap(key)]
 //@   ensures @unknown bd.baseDb.pfx == 0 ==> result1 != nil
 //@   ensures @ok bd.baseDb.pfx != 0 ==> result1 == nil
 //@   ensures @default bd.baseDb.pfx != 0 ==> str(result0.Default) == chr(bd.baseDb.pfx) + old(skey(bd, key)) && result0.Default != nil
+//@   ensures @own bd.baseDb.pfx != 0 ==> fresh(result0.Default) && (result0.Translation != nil ==> fresh(result0.Translation) && !sameBacking(result0.Translation, result0.Default))
+//@   ensures @sid str(bd.baseDb.sid) == old(str(bd.baseDb.sid))
+//@   ensures @key str(key) == old(str(key))
+//@   ensures @deftext bd.baseDb.pfx != 0 ==> len(result0.Default) >= 1 && result0.Default[0] == bd.baseDb.pfx && str(result0.Default[1:]) == old(skey(bd, key))
+//@   ensures @trbyte bd.baseDb.pfx != 0 && result0.Translation != nil ==> len(result0.Translation) >= 1 && result0.Translation[0] == bd.baseDb.pfx
+//@   ensures @trtextdb bd.baseDb.pfx != 0 && result0.Translation != nil && bd.baseDb.lang != nil ==> str(result0.Translation[1:]) == old(skey(bd, key)) + langSuffix(bd.baseDb.lang)
+//@   ensures @trtextctx bd.baseDb.pfx != 0 && result0.Translation != nil && bd.baseDb.lang == nil ==> str(result0.Translation[1:]) == old(skey(bd, key)) + ite(ctxLangCode(ctx) != "", "_" + ctxLangCode(ctx), "")
 //@   ensures @notrans bd.baseDb.pfx != 0 && (!translatable(bd.baseDb.pfx) || (bd.baseDb.lang == nil && !ctxHasLang(ctx))) ==> result0.Translation == nil
 //@   ensures[C10,C18] @dblang bd.baseDb.pfx != 0 && translatable(bd.baseDb.pfx) && bd.baseDb.lang != nil ==> result0.Translation != nil
 //@     && str(result0.Translation) == chr(bd.baseDb.pfx) + old(skey(bd, key)) + langSuffix(bd.baseDb.lang)
